@@ -286,6 +286,28 @@ func (k c07) Run(c *rt.Ctx) {
 		}
 		c.Rec.Inc("sort_key_element_of_a_named_list")
 	}
+	if !aggregate && !closeF && !bigint && c.Case%7 == 5 {
+		// wave 15 (C07-aa): the first sort key is an UNNAMED field, written out again in the ORDER BY
+		// clause, next to an unnamed field that differs from it only in `2` versus `2.0` (integer
+		// division ties where the float division does not) - the clause means the field it spells
+		base := func() *gen.Node { return gen.Call("strlen", gen.Value()) }
+		if (c.Case/7)%2 == 1 {
+			base = func() *gen.Node { return gen.Bin("+", gen.Call("strlen", gen.Value()), gen.Call("strlen", gen.Key())) }
+		}
+		ia, fa := gen.Bin("/", base(), gen.Int(2)), gen.Bin("/", base(), gen.Float("2.0"))
+		first, second := ia, fa
+		if (c.Case/14)%2 == 1 {
+			first, second = fa, ia
+		}
+		fn := gen.Print(fa)
+		fields = append(fields, c07Field{first, gen.Print(first), 'N'}, c07Field{second, gen.Print(second), 'N'})
+		stmt.Fields = append(stmt.Fields, gen.Field{E: first}, gen.Field{E: second})
+		stmt.OrderBy = append([]gen.OrderItem{{Name: fn, Desc: (c.Case/28)%2 == 0}}, stmt.OrderBy...)
+		if len(stmt.OrderBy) > 3 {
+			stmt.OrderBy = stmt.OrderBy[:3]
+		}
+		c.Rec.Inc("unnamed_sort_key_spelled_out_beside_its_integer_twin")
+	}
 	if !aggregate && len(stmt.OrderBy) > 0 && r.Chance(1, 8) {
 		// a later select field carrying the name of a sort key: the name means the FIRST field
 		nm := stmt.OrderBy[r.Intn(len(stmt.OrderBy))].Name
